@@ -1,5 +1,5 @@
 (* Lemmas_Narrow.v — facts about the character graph of the non-unicode build (C20). *)
-Require Import Observers Inst Lemmas_TabConv.
+Require Import Observers Inst Lemmas_TabConv Lemmas_Base.
 Require Gen.
 Local Open Scope Z_scope.
 Lemma conv_narrow_table : conv_narrow_ok = true.
@@ -8,3 +8,30 @@ Lemma narrow_well_defined : narrow_well_defined_ok = true.
 Proof. vm_compute. reflexivity. Qed.
 Lemma conv_narrow_printable : conv_printable_ok conv_n = true.
 Proof. vm_compute. reflexivity. Qed.
+
+(* the three facts about the two character graphs that the simulation theorem (Lemmas_Sim) needs *)
+Require Import Lia.
+Definition sim_facts_ok : bool :=
+  all_from 224 32 (fun b => negb (conv_u b =? 0) && negb (conv_n b =? 0)
+                            && (negb (conv_u b =? 32) || (conv_n b =? 32))).
+Lemma sim_facts : sim_facts_ok = true.
+Proof. vm_compute. reflexivity. Qed.
+
+Lemma conv_nonzero : forall b, 32 <= b < 256 -> conv_u b <> 0 /\ conv_n b <> 0.
+Proof.
+  intros b Hb. pose proof (all_from_spec _ _ _ sim_facts b ltac:(simpl; lia)) as H. cbv beta in H.
+  apply andb_true_iff in H. destruct H as [H _]. apply andb_true_iff in H. destruct H as [H1 H2].
+  apply negb_true_iff in H1, H2. apply Z.eqb_neq in H1, H2. split; assumption.
+Qed.
+Lemma conv_space_narrow : forall b, 32 <= b < 256 -> conv_u b = 32 -> conv_n b = 32.
+Proof.
+  intros b Hb E. pose proof (all_from_spec _ _ _ sim_facts b ltac:(simpl; lia)) as H. cbv beta in H.
+  apply andb_true_iff in H. destruct H as [_ H]. rewrite E in H. cbn in H. apply Z.eqb_eq in H. exact H.
+Qed.
+Lemma conv_well_defined : forall i j, 32 <= i < 256 -> 32 <= j < 256 -> conv_u i = conv_u j -> conv_n i = conv_n j.
+Proof.
+  intros i j Hi Hj E. pose proof narrow_well_defined as W. unfold narrow_well_defined_ok in W.
+  pose proof (all_from_spec _ _ _ W i ltac:(simpl; lia)) as H1. cbv beta in H1.
+  pose proof (all_from_spec _ _ _ H1 j ltac:(simpl; lia)) as H2. cbv beta in H2.
+  rewrite E, Z.eqb_refl in H2. cbn in H2. apply Z.eqb_eq in H2. exact H2.
+Qed.
